@@ -11,7 +11,7 @@ ID = "C10"
 LEAN_MODULES = ["Pypika.Props.C10"]
 THEOREMS = ["Pypika.C10.nsName_alias", "Pypika.C10.nsName_name", "Pypika.C10.field_qualified", "Pypika.C10.alias_always",
             "Pypika.C10.field_bare", "Pypika.C10.wantsNamespace_iff", "Pypika.C10.statement_namespace",
-            "Pypika.C10.schema_outermost_first", "Pypika.C10.invented_names_distinct"]
+            "Pypika.C10.schema_outermost_first", "Pypika.C10.invented_names_distinct", "Pypika.C10.invented_names_distinct_calls"]
 AGREE = ["Pypika.Agree.class_quotes"]
 TRUSTED = ["column names of the generator encode the source they are bound to (c_<source>_<i>), so the qualifier of every "
            "occurrence in the implementation's text can be compared with that source's in-statement name"]
@@ -193,14 +193,18 @@ def generate(rng, n, tier):
         order = subs[:]
         rng.shuffle(order)
         head = "%s.from_(%s)" % (qn, order[0])
+        tagcalls = [["from", order[0]]]
         for sname in order[1:]:
             if rng.random() < 0.5:
                 head += ".from_(%s)" % sname
+                tagcalls.append(["from", sname])
             else:
                 head += ".join(%s).on(%s.c_%s_0 == %s.c_%s_0)" % (sname, sname, sname, order[0], order[0])
+                tagcalls.append(["join", sname])
         head += ".select(%s)" % ", ".join("%s.c_%s_0" % (x, x) for x in subs)
         lines.append("q = " + head)
-        yield {"script": "\n".join(lines), "cls": cls, "kind": "nested-sub", "sources": [[x, None, "sub"] for x in subs]}
+        yield {"script": "\n".join(lines), "cls": cls, "kind": "nested-sub", "sources": [[x, None, "sub"] for x in subs],
+               "tagcalls": tagcalls}
     # sub-query objects reused across statements
     for j in range(max(20, n // 50)):
         cls = rng.choice(classes)
@@ -231,6 +235,11 @@ def examine(case):
                              {"sql": text}, "str(statement)"))
     except Unsupported as ex:
         res.skipped = str(ex)[:40]
+    if case.get("tagcalls"):
+        # the invented names against the model's numbering rule (Lean `C10.tagCalls`, proved pairwise distinct)
+        calls = [{"k": k, "sub": env[v]._subquery_count} for k, v in case["tagcalls"]]
+        res.requests.append(({"op": "tagcalls", "count": 0, "calls": calls}, {"names": [env[v].alias for _, v in case["tagcalls"]]},
+                             "invented names of from_/join calls"))
     try:
         toks = sqlspec.lex(text, ident_quotes='"`')
     except sqlspec.LexError as ex:
